@@ -439,6 +439,12 @@ let run_opt k c impl =
      (match impl_line impl k "C" with
       | Some dc -> cmp_fields "dup-loss" dc (base @ ["servers"; "ldev"; "lip4"; "lip6"; "aif"])
       | None -> ());
+     (* the text form shows interface names only: the duplicate's servers must also carry the
+        source's scope ids *)
+     (match impl_line impl k "As", impl_line impl k "Cs", impl_line impl k "C" with
+      | Some x, Some y, Some dc when x <> y && fget (fields dc) "servers" = srv ->
+        pr "FAIL %d dup-loss servers:iface/scope:%s->%s\n" k (fget (fields x) "scopes") (fget (fields y) "scopes")
+      | _ -> ());
      (match impl_line impl k "C2" with
       | Some l when fget (fields l) "sf" <> "1" -> pr "FAIL %d dup-loss sockfuncs:not-copied\n" k
       | _ -> ());
@@ -573,9 +579,10 @@ let run_fn k c impl =
         match m with
         | Some a -> cmp k tag ("st=0 alias=" ^ hexstr_opt (Some (str_of_bytes a))) impl
         | None -> cmp k tag "st=4 alias=-" impl) [true; false];
-    (* junk for the alias file: comment-like lines whose first word is not the name looked up *)
+    (* junk for the alias file, by the extracted grammar (Spec.junk_alias_line): every line that does
+       not define the alias looked up, the same alias with an unusable target included *)
     let marked = List.filter (fun (t, _) -> t = 'a') c.units in
-    let is_junk d = let t = String.trim d in t = "" || (let w = List.hd (String.split_on_char ' ' (String.map (fun ch -> if ch = '\t' then ' ' else ch) t)) in String.lowercase_ascii w <> String.lowercase_ascii name) in
+    let is_junk d = junk_alias_line (bytes_of_str name) (bytes_of_str d) in
     if marked <> [] && List.for_all (fun (_, d) -> not (String.contains d '\n') && is_junk d) marked then
       (match impl_line impl k "alias-full", impl_line impl k "alias-nojunk" with
        | Some x, Some y when x <> y -> pr "FAIL %d junk-dependent classes=hostaliases at=alias %s != %s\n" k x y
